@@ -24,7 +24,7 @@ var stdlibPureNames = map[string]bool{
 	"(*sync.Mutex).Lock": true, "(*sync.Mutex).Unlock": true, "(*sync.RWMutex).Lock": true, "(*sync.RWMutex).Unlock": true,
 	"(*sync.RWMutex).RLock": true, "(*sync.RWMutex).RUnlock": true,
 	"(*sync.Cond).Signal": true, "(*sync.Cond).Broadcast": true,
-	"time.Now": true, "time.Since": true, "(time.Time).Sub": true, "(time.Time).UnixMilli": true, "(time.Time).UnixNano": true,
+	"time.Now": true, "time.Since": true, "time.Unix": true, "time.UnixMilli": true, "time.Until": true, "(time.Time).Sub": true, "(time.Time).UnixMilli": true, "(time.Time).UnixNano": true,
 	"(time.Time).Before": true, "(time.Time).After": true, "(time.Time).Add": true, "(time.Duration).Milliseconds": true,
 	"math/rand.Intn": true, "math/rand.Float64": true, "(*math/rand.Rand).Intn": true, "(*math/rand.Rand).Float64": true,
 	"(*math/rand.Rand).Uint32": true, "(*math/rand.Rand).Int31n": true, "(*math/rand.Rand).Perm": false,
@@ -300,6 +300,10 @@ func (e *Encoder) stdlibCall(callee *ssa.Function, cm *ssa.CallCommon, args []Va
 		use()
 		if e.mutexCall(callee.Name(), cm, args, st, pc) {
 			e.usedStdlib["sync.Mutex as a monitor lock (Lock: havoc protected state + assume invariant; Unlock: invariant is an obligation)"] = true
+		}
+		if strings.HasPrefix(callee.Name(), "Try") {
+			// TryLock / TryRLock: either outcome (no concurrency is modelled)
+			return e.freshVal("trylock", resT), true
 		}
 		return Val{T: resT}, true
 	case n == "(*sync.Cond).Wait" || n == "(*sync.Cond).Signal" || n == "(*sync.Cond).Broadcast":
